@@ -14,18 +14,45 @@ import (
 	"luasim/engines/faultsweep"
 	"luasim/engines/iohist"
 	"luasim/engines/limitswarm"
+	"luasim/engines/multistate"
+	"luasim/engines/reqhist"
 	"luasim/engines/streamload"
 )
 
 var specs = map[string]*core.PropertySpec{
 	"C03": {Property: "C03", Engine: faultsweep.New("C03", "closure"), QuickS: 75, ThoroughS: 1200, RunCapS: 300},
 	"C05": {Property: "C05", Engine: faultsweep.New("C05", "containment"), QuickS: 75, ThoroughS: 1800, RunCapS: 300},
-	"C11": {Property: "C11", Engine: cancelsweep.New, QuickS: 60, ThoroughS: 1500, RunCapS: 300},
+	"C11": {Property: "C11", Engine: func() core.Engine {
+		return &combo{main: cancelsweep.New(), sub: map[string]core.Engine{"blocked": multistate.New("C11")()}}
+	}, QuickS: 55, ThoroughS: 1500, RunCapS: 300,
+		Subs: []core.SubSpec{{Sub: "blocked", BudgetS: 8, Workers: 4}}},
 	"C12": {Property: "C12", Engine: limitswarm.New, QuickS: 60, ThoroughS: 1500, RunCapS: 300},
 	"C06": {Property: "C06", Engine: cosched.New, QuickS: 60, ThoroughS: 1200, RunCapS: 300},
 	"C19": {Property: "C19", Engine: iohist.New, QuickS: 45, ThoroughS: 900, RunCapS: 120},
+	"C20": {Property: "C20", Engine: reqhist.New, QuickS: 40, ThoroughS: 600, RunCapS: 120, Subs: []core.SubSpec{{Sub: "exhaustive", BudgetS: 8, Workers: 8}}},
+	"C13": {Property: "C13", Engine: multistate.New("C13"), QuickS: 75, ThoroughS: 1500, RunCapS: 120, RaceFraction: 0.5},
 	"C08": {Property: "C08", Engine: streamload.New, QuickS: 45, ThoroughS: 900, RunCapS: 20, HangViolation: true},
 }
+
+// combo runs a different engine for a sub-mode of the same property.
+type combo struct {
+	main core.Engine
+	sub  map[string]core.Engine
+}
+
+func (c *combo) Name() string         { return c.main.Name() }
+func (c *combo) Properties() []string { return c.main.Properties() }
+func (c *combo) Run(t *core.Tape, cfg *core.Config, st *core.Stats) *core.Violation {
+	if e, ok := c.sub[cfg.Sub]; ok {
+		return e.Run(t, cfg, st)
+	}
+	return c.main.Run(t, cfg, st)
+}
+func (c *combo) Level() string            { return c.main.(core.Describer).Level() }
+func (c *combo) Rule() string             { return c.main.(core.Describer).Rule() }
+func (c *combo) RealComponents() []string { return c.main.(core.Describer).RealComponents() }
+func (c *combo) StubComponents() []string { return c.main.(core.Describer).StubComponents() }
+func (c *combo) Assumptions() []string    { return c.main.(core.Describer).Assumptions() }
 
 func usage() {
 	fmt.Println("usage: luasim <PROPERTY> [--tier quick|thorough] [--replay FILE] [--budget SECONDS] [--workers N]")
